@@ -48,7 +48,7 @@ type vfDelivery struct {
 }
 
 type vfFault struct {
-	Kind string `json:"k"` // "drop", "dup", "delay"
+	Kind string `json:"k"` // "drop", "dup", "delay" (300 ms), "delay2" (1.5 s, longer than the initial timeout)
 	Dir  int    `json:"d"` // sender: 0 client, 1 server
 	Nth  int    `json:"n"` // n-th datagram sent by that sender (0-based, retransmissions included)
 }
@@ -83,6 +83,8 @@ type vfDSim struct {
 	timers   []*vfDTimer
 	faults   []vfFault
 	faultsOff bool // set once both endpoints completed the handshake (faults confined to the handshake)
+	// faultable, if set, tells whether the fault plan may touch this datagram (it is still counted)
+	faultable func(data []byte) bool
 	// hook, if set, decides what happens to each sent datagram (after the fault plan)
 	hook     func(from, nth int, data []byte) []vfDelivery
 	sent     []vfSentRec
@@ -94,6 +96,7 @@ type vfDSim struct {
 	tie      int // which endpoint wins when both read deadlines expire at the same instant
 	spin     int
 	spun     bool
+	livelock bool
 	applied  int // number of fault-plan entries that were actually applied
 }
 
@@ -183,12 +186,19 @@ func (e *vfDEnd) WriteTo(p []byte, addr net.Addr) (int, error) {
 	if e.closed {
 		return 0, net.ErrClosed
 	}
+	if s.nextID > 4000 {
+		// endpoints keep exchanging datagrams without virtual time passing: a livelock
+		s.livelock = true
+		s.ends[0].closed, s.ends[1].closed = true, true
+		s.cond.Broadcast()
+		return 0, net.ErrClosed
+	}
 	n := e.nsent
 	e.nsent++
 	data := append([]byte(nil), p...)
 	act := "send"
 	deliveries := []vfDelivery{{Data: data}}
-	if !s.faultsOff {
+	if !s.faultsOff && (s.faultable == nil || s.faultable(data)) {
 		for _, f := range s.faults {
 			if f.Dir == e.idx && f.Nth == n {
 				s.applied++
@@ -204,6 +214,11 @@ func (e *vfDEnd) WriteTo(p []byte, addr net.Addr) (int, error) {
 						deliveries[i].Delay += s.delayBy
 					}
 					act = "send-delayed"
+				case "delay2": // longer than one initial retransmission timeout: arrives after the retransmission
+					for i := range deliveries {
+						deliveries[i].Delay += 5 * s.delayBy
+					}
+					act = "send-delayed-long"
 				}
 			}
 		}
@@ -277,6 +292,7 @@ func (e *vfDEnd) markDone() {
 
 var errVfHorizon = errors.New("vnet: horizon exceeded")
 var errVfStuck = errors.New("vnet: all endpoints blocked forever")
+var errVfLivelock = errors.New("vnet: more than 4000 datagrams exchanged without completing (livelock)")
 var errVfSpin = errors.New("vnet: endpoint spins on an expired deadline without sending")
 
 // run drives the simulation until both endpoints are done.
@@ -289,6 +305,9 @@ func (s *vfDSim) run(horizon time.Duration) error {
 		}
 		if s.spun {
 			return errVfSpin
+		}
+		if s.livelock {
+			return errVfLivelock
 		}
 		if (s.ends[0].done || s.ends[0].closed) && (s.ends[1].done || s.ends[1].closed) {
 			// an endpoint that was closed but whose goroutine still runs will mark done soon
